@@ -45,7 +45,8 @@ CONSTANTS Forms,        \* subset of {"csrwild","coowild","csr","coo","empty","d
           Dtypes,       \* subset of {"f", "c"}: data types of generated well-formed input
           WildDtypes,   \* data types of arbitrary input
           Ops,          \* subset of {"neg","T","scale","div","add","sub","submatrix","pickle"}
-          MaxSteps,     \* operations after assembly
+          MaxSteps,     \* operations after assembly ...
+          OpForms,      \* ... for input of these forms (no operations for the other forms)
           MaxE,         \* bound on the binary exponent (number of nested divisions)
           StrictOrder,  \* design: TRUE  (FALSE = numpy.greater_equal, the pinned code)
           LowerBound    \* design: TRUE  (FALSE = no colidx >= 0 test, the pinned code)
@@ -69,11 +70,13 @@ Vals(k, z, dt, base) == Tab(k, LAMBDA q : IF q = z THEN Z0 ELSE ValOf(base + q, 
 ISum(s) == LET F[k \in 0..Len(s)] == IF k = 0 THEN 0 ELSE F[k - 1] + s[k] IN F[Len(s)]
 
 \* ------------------------------------------------------------------ caller's input
-WildCSRs == {[v |-> Vals(k, z, dt, 0), rp |-> rp, ci |-> ci, n |-> n, e |-> 0] :
-               k \in 0..WildNnz, z \in 0..1, dt \in WildDtypes,
+\* (the validation does not look at the values: arbitrary input carries no explicit zeros,
+\* well-formed generated input does)
+WildCSRs == {[v |-> Vals(k, 0, dt, 0), rp |-> rp, ci |-> ci, n |-> n, e |-> 0] :
+               k \in 0..WildNnz, dt \in WildDtypes,
                rp \in SeqsUpTo(0..WildNnz, WildM + 1), ci \in SeqsUpTo((0 - 1)..WildN, WildNnz), n \in 0..WildN}
-WildCOOs == {[v |-> Vals(k, z, dt, 0), ri |-> ri, m |-> m, ci |-> ci, n |-> n] :
-               k \in 0..WildNnz, z \in 0..1, dt \in WildDtypes,
+WildCOOs == {[v |-> Vals(k, 0, dt, 0), ri |-> ri, m |-> m, ci |-> ci, n |-> n] :
+               k \in 0..WildNnz, dt \in WildDtypes,
                ri \in SeqsUpTo((0 - 1)..WildM, WildNnz), m \in 0..WildM, ci \in SeqsUpTo((0 - 1)..WildCooN, WildNnz), n \in 0..WildCooN}
 DtOf(v) == IF \E q \in 1..Len(v) : v[q][2] # 0 THEN "c" ELSE "f"
 
@@ -288,7 +291,8 @@ Return ==
     /\ UNCHANGED <<inp, csr, regs, cache, acc, brow>>
 
 \* ------------------------------------------------------------------ operations
-CanOp(k) == pc = "ready" /\ Len(hist) <= MaxSteps /\ k \in Ops
+StepsOf(f) == IF f \in OpForms THEN MaxSteps ELSE 0
+CanOp(k) == pc = "ready" /\ Len(hist) <= StepsOf(inp.form) /\ k \in Ops
 Small(M) == \A i \in 1..M.m : \A j \in 1..M.n : Abs2(M.c[i][j]) <= 10000
 Push(M, h) == /\ regs' = Append(regs, M)
               /\ hist' = Append(hist, h)
@@ -435,7 +439,7 @@ Common == [form |-> inp.form, dt |-> inp.dt, verdict |-> verdict, reasons |-> In
 Behaviour == IF inp.form \in CooForms THEN Common @@ [coo |-> inp.coo]
              ELSE IF inp.form = "block" THEN Common @@ [blk |-> inp.blk]
              ELSE Common @@ [csr |-> inp.csr]
-Complete == pc = "rejected" \/ (pc = "ready" /\ Len(hist) = MaxSteps + 1)
+Complete == pc = "rejected" \/ (pc = "ready" /\ Len(hist) = StepsOf(inp.form) + 1)
 Emit(x) == PrintT(<<"VF", ToJson(x)>>)
 EmitBehaviours == Complete => Emit(Behaviour)
 =============================================================================
